@@ -26,8 +26,8 @@ def rule_a(ctx):
             bt, f = recv_field(s)
             if f == "closed" and bt and DS in bt and s.op != "load":
                 n += 1
-                v = [fold(e) for e in flow(i).term_arg(s.bb, 1)] if s.op == "store" else None
-                ctx.check(s.op == "store" and v == [1], rid, "closed-write@%s" % keyname(i.name), "`closed` is only ever set to true (%s in %s)" % (s.op, i.name.split("::")[-1]), s.sp,
+                v = [fold(e) for e in flow(i).term_arg(s.bb, 1)] if s.op in ("store", "swap", "fetch_or") else None
+                ctx.check(s.op in ("store", "swap", "fetch_or") and v == [1], rid, "closed-write@%s" % keyname(i.name), "`closed` is only ever set to true (%s in %s)" % (s.op, i.name.split("::")[-1]), s.sp,
                           {"op": s.op, "value": v})
     if n == 0:
         raise AnchorLost("no write to the closed flag")
@@ -39,7 +39,7 @@ def rule_b(ctx):
     ctx.rule(rid, "close(): the flag store dominates the wake of the self-pipe (a woken consumer must see the flag)", floor=1)
     c = F.one("signal_hook::iterator::backend::Handle::close")
     ctx.fn(c)
-    st = [s for s in sites(F, c) if s.op == "store" and recv_field(s)[1] == "closed"]
+    st = [s for s in sites(F, c) if s.op in ("store", "swap", "fetch_or", "compare_exchange") and recv_field(s)[1] == "closed"]
     wk = [bb for bb, t in c.calls() if t.get("f") is not None and (F.inst[t["f"]].kind == "virtual" and "SelfPipeWrite" in (F.inst[t["f"]].dyn or "") or
                                                                      "wake" in (t.get("def") or ""))]
     dom = cfg.dominators(c)
